@@ -5,7 +5,25 @@ using namespace orc;
 
 static const ld CPCACONV = 1e-18L, PCACONV = 1e-10L;
 
+// Orthogonal designs split into blocks: every column of the block-scaled concatenation is an exact eigenvector, so a NIPALS
+// iteration started from a column converges at once to THAT column, dominant or not (a structure continuous draws never give).
+static void gen_c09_design(Draw &d, Case &c) {
+  int ptot = (int)d.i(3, 4), n = 1 << ptot; if (d.coin(40)) n *= 2;
+  static const int splits3[][3] = {{2, 1, 0}, {1, 2, 0}, {1, 1, 1}}; static const int splits4[][4] = {{2, 1, 1, 0}, {1, 3, 0, 0}, {3, 1, 0, 0}, {1, 1, 2, 0}, {2, 2, 0, 0}, {1, 2, 1, 0}};
+  std::vector<int> w; { const int *sp = ptot == 3 ? splits3[d.i(0, 2)] : splits4[d.i(0, 5)]; for (int q = 0; q < ptot && sp[q] > 0; q++) w.push_back(sp[q]); }
+  int nb = (int)w.size(), scaling = (int)d.i(0, 5);
+  auto sc = d.ivec(ptot, 1, 6), off = d.ivec(ptot, 1, 4);
+  M X(n, ptot); for (int i = 0; i < n; i++) for (int j = 0; j < ptot; j++) X(i, j) = (double)((((i >> j) & 1) ? 1 : -1) * (scaling == 0 ? (double)sc[j] + 0.25 * j : (double)sc[j]) + 5.0 * off[j]);
+  int minw = *std::min_element(w.begin(), w.end());
+  int npc = (int)d.i(1, std::max(1, minw));
+  c.p = {nb, n, scaling, npc}; for (int x : w) c.p.push_back(x);
+  put(c, X);
+  c.nontrivial = true;
+  c.tags.push_back("orthogonal-design"); c.tags.push_back(fmt("blocks=%d", nb)); c.tags.push_back(fmt("scaling=%d", scaling)); c.tags.push_back(fmt("npc=%d", npc));
+}
+
 static void gen_c09(Draw &d, Case &c) {
+  if (d.coin(15)) { gen_c09_design(d, c); return; }
   bool rich = d.coin(55);               // force the interesting class: >= 3 blocks of unequal width that admit npc >= 2
   int nb = rich ? (int)d.i(3, 4) : (int)d.i(2, 4), n = (int)d.sz(rich ? 8 : 5, 30);
   std::vector<int> w(nb); int ptot = 0; for (auto &x : w) { x = (int)d.i(rich ? 2 : 1, 8); ptot += x; }
